@@ -181,7 +181,7 @@ def ambiguous(W, k):
 
 
 def plan(tier, seed):
-    n = tier_value(tier, 240, 8000)
+    n = tier_value(tier, 240, 16000)
     shards = tier_value(tier, 10, 14)
     per = n // shards
     return [dict(first=i * per, count=per, budget_s=tier_value(tier, 45, 480)) for i in range(shards)]
